@@ -250,7 +250,7 @@ def _run(ctx):
     ctx.log('swept %d/%d chunks, %d cases, %d fault runs, %.1fs'
             % (res.chunks_done, res.chunks_total, res.cases,
                c.get('fault_runs', 0), res.wall_s))
-    if not (res.nontrivial and c.get('fault_kill') and c.get('fault_error')
+    if not res.violations and not (res.nontrivial and c.get('fault_kill') and c.get('fault_error')
             and c.get('written_files_checked') and c.get('virtual_stats')
             and c.get('fault_at_write') and c.get('resyncs')
             and c.get('startup_syncs') and c.get('outdated_files_checked')
